@@ -174,6 +174,12 @@ func isComment(s []byte) bool {
 func (p *programSplitter) readProgram() Program {
 	var prog Program
 	for !p.eof {
+		// Blank lines before the first change carry no meaning. (Blank
+		// lines between changes are part of the preceding diff.)
+		if len(bytes.TrimSpace(p.text)) == 0 {
+			p.next()
+			continue
+		}
 		prog = append(prog, p.readChange())
 	}
 	if len(prog) == 0 {
